@@ -29,7 +29,7 @@ def generate(seed, tier, index, kf):
     prof = {
         "mailboxes": ["inbox", "work"], "sessions": r.randint(1, 3), "weights": WEIGHTS, "init_hi": 6,
         "ops_lo": 8, "ops_hi": 35 if tier == "quick" else 50, "keywords": "wild" if r.random() < (0.25 if tier == "quick" else 0.4) else "tame", "mode": "sequential",
-        "recent_p": 0.05, "bad_set_p": 0.04, "flag_case_p": 0.15 if r.random() < 0.4 else 0.0,
+        "recent_p": 0.05, "bad_set_p": 0.04, "flag_case_p": 0.15 if r.random() < 0.4 else 0.0, "noparen_p": 0.12,
     }
     prog = mailstore.generate(seed, prof)
     prog["props"] = [PROP]
